@@ -232,7 +232,58 @@ def gen_case(rng, malformed=False, long=False):
             if bad_index:
                 i = rng.choice([ln, ln + 2, -ln - 1])
             c["edits"].append(["set", i, gen_item(rng, malformed)] + index_type(rng))
+    if rng.random() < 0.35:
+        # FAULTS: requests that the library must reject, sent to the array or to one of its
+        # elements before an edit; the exception is caught; nothing may have changed
+        c["faults"] = {}
+        for k in rng.sample(range(1, len(c["edits"]) + 1), min(len(c["edits"]), rng.choice([1, 1, 2]))):
+            c["faults"][str(k)] = [gen_fault(rng) for _ in range(rng.choice([1, 1, 2]))]
     return c
+
+
+BAD_UNITS = ["m2", "kg*m/s^2)", "m per s", "m^", "(m", "2", " ", "m**2", "kg m"]
+FAULT_KINDS = ["unit", "unit", "unit-type", "name-type", "elem-unit", "elem-value", "elem-error",
+               "ctor-negative", "ctor-data", "append-bad", "set-bad"]
+
+
+def gen_fault(rng):
+    k = rng.choice(FAULT_KINDS)
+    if k == "elem-unit":
+        return [k, rng.randint(-3, 2), rng.choice(BAD_UNITS)]
+    arg = rng.choice(BAD_UNITS) if k == "unit" else rng.randint(-3, 2)
+    return [k, arg]
+
+
+def send_fault(q, a, f):
+    """one request that must be rejected; -> exception class or 'accepted'"""
+    k, arg = f[0], f[1]
+    n = len(a)
+
+    def go():
+        if k == "unit":
+            a.unit = arg
+        elif k == "unit-type":
+            a.unit = 5
+        elif k == "name-type":
+            a.name = 5
+        elif k == "elem-unit":
+            a[arg % n].unit = f[2]
+        elif k == "elem-value":
+            a[arg % n].value = "abc"
+        elif k == "elem-error":
+            a[arg % n].error = -0.5
+        elif k == "ctor-negative":
+            q.MeasurementArray([1.0, 2.0], -0.5)
+        elif k == "ctor-data":
+            q.MeasurementArray("abc")
+        elif k == "append-bad":
+            a.append([(1.0, 0.1), "abc"])
+        elif k == "set-bad":
+            a[arg % n] = (1.0, -0.5)
+        else:
+            raise ValueError(k)
+    st, v = H.call(go)
+    return "accepted" if st == "ok" else v
 
 
 def index_type(rng):
@@ -309,6 +360,17 @@ def fmt_index(e, k):
     return "{}({})".format(e[k], e[1]) if len(e) > k else str(e[1])
 
 
+def fmt_fault(f):
+    k = f[0]
+    return {"unit": "a.unit = {!r}".format(f[1]), "unit-type": "a.unit = 5", "name-type": "a.name = 5",
+            "elem-unit": "a[{} % len(a)].unit = {!r}".format(f[1], f[2] if len(f) > 2 else ""),
+            "elem-value": "a[{} % len(a)].value = 'abc'".format(f[1]),
+            "elem-error": "a[{} % len(a)].error = -0.5".format(f[1]),
+            "ctor-negative": "MeasurementArray([1.0, 2.0], -0.5)", "ctor-data": "MeasurementArray('abc')",
+            "append-bad": "a.append([(1.0, 0.1), 'abc'])",
+            "set-bad": "a[{} % len(a)] = (1.0, -0.5)".format(f[1])}[k]
+
+
 def describe(c):
     kw = ""
     if c["spec"]:
@@ -323,7 +385,9 @@ def describe(c):
     s = "a = MeasurementArray({}{}{}{})".format(
         data, kw, ", name={!r}".format(c["name"]) if c["name"] else "",
         ", unit={!r}".format(c["unit"]) if c["unit"] else "")
-    for e in c["edits"]:
+    for k, e in enumerate(c["edits"], 1):
+        for f in c.get("faults", {}).get(str(k), []):
+            s += "; <rejected, caught: {}>".format(fmt_fault(f))
         if e[0] == "append":
             s += "; a = a.append({})".format(fmt_operand(e[1]))
         elif e[0] == "insert":
@@ -361,11 +425,19 @@ def mk_operand(q, x):
     return q.MeasurementArray(vals, errs, name="other", unit="s")
 
 
+def fl(v):
+    """a stored number as a float; anything else (a fault wrote garbage) as a marked string"""
+    try:
+        return float(v)
+    except Exception:  # noqa: BLE001
+        return "not-a-number:" + repr(v)[:40]
+
+
 def read(a):
     import warnings
     with warnings.catch_warnings():
         warnings.simplefilter("ignore")
-        r = {"len": len(a), "values": [float(v) for v in a.values], "errors": [float(e) for e in a.errors],
+        r = {"len": len(a), "values": [fl(v) for v in a.values], "errors": [fl(x) for x in a.errors],
              "names": [x.name for x in a], "units": [x.unit for x in a], "name": a.name, "unit": a.unit}
         for agg in ("sum", "mean"):
             s, v = H.call(getattr(a, agg))
@@ -401,9 +473,11 @@ def observe(q, c):
         return {"steps": [{"out": "reject", "exc": a}]}
     steps = [{"out": "ok", "arr": read(a)}]
     excs = collections.Counter()
-    for e in c["edits"]:
-        before = {"len": len(a), "values": [float(v) for v in a.values],
-                  "errors": [float(x) for x in a.errors]}
+    flog = []
+    for k, e in enumerate(c["edits"], 1):
+        for f in c.get("faults", {}).get(str(k), []):
+            flog.append([k, f, send_fault(q, a, f)])
+        before = {"len": len(a), "values": [fl(v) for v in a.values], "errors": [fl(x) for x in a.errors]}
         if e[0] == "append":
             st, b = H.call(lambda: a.append(mk_operand(q, e[1])))
         elif e[0] == "insert":
@@ -417,8 +491,7 @@ def observe(q, c):
                 return a
             st, b = H.call(f)
         step = {"out": st}
-        after = {"len": len(a), "values": [float(v) for v in a.values],
-                 "errors": [float(x) for x in a.errors]}
+        after = {"len": len(a), "values": [fl(v) for v in a.values], "errors": [fl(x) for x in a.errors]}
         if e[0] != "set" or st != "ok":
             step["source_before"], step["source_after"] = before, after
         if st == "ok":
@@ -428,7 +501,7 @@ def observe(q, c):
             excs[b] += 1
         step["arr"] = read(a)
         steps.append(step)
-    return {"steps": steps, "exceptions": dict(excs)}
+    return {"steps": steps, "exceptions": dict(excs), "faults": flog}
 
 
 def model_line(c):
@@ -441,8 +514,16 @@ def same_f(a, b):
     return a == b or (isinstance(a, float) and isinstance(b, float) and math.isnan(a) and math.isnan(b))
 
 
+def fault_accepted(o):
+    """a request meant to be rejected was accepted: the history is not judged by C17 (whether an
+    invalid unit string / a negative uncertainty is rejected is C12's / C14's statement)"""
+    return any(out == "accepted" for _, _, out in o.get("faults", []))
+
+
 def compare(c, o, m):
     inp = describe(c)
+    if fault_accepted(o):
+        return []
     if "fail" in m:
         return [{"signature": "c17:model-error", "kind": "disagreement", "what": "model driver: " +
                  m["fail"], "input": inp, "case": c}]
@@ -524,7 +605,7 @@ def compare(c, o, m):
 
 def list_reference(c, o):
     """independent oracle: the same edits on a Python list of (value, error) pairs"""
-    if o["steps"][0]["out"] != "ok":
+    if o["steps"][0]["out"] != "ok" or fault_accepted(o):
         return []
     cur = [(unbits(p[0]), unbits(p[1])) for p in c["init"]]
     inp = describe(c)
@@ -659,6 +740,10 @@ def run_cases(ctx, cases, ref=False, with_model=True):
                 kinds[e[0]] += 1
         for k, v in o.get("exceptions", {}).items():
             d["exception:" + k] += v
+        for _, f, out in o.get("faults", []):
+            d["fault:{}:{}".format(f[0], out)] += 1
+        if fault_accepted(o):
+            d["not-judged:fault-accepted"] += 1
         if sum(kinds.values()) >= 3 and len(kinds) >= 2:
             res["nontrivial"].add(canon_hash(c))
         if len(res["samples"]) < 5 and len(c["edits"]) <= 4 and o["steps"][0]["out"] == "ok":
